@@ -196,6 +196,10 @@ func readOnlySliceUses(v ssa.Value) string {
 			if b, ok := y.Call.Value.(*ssa.Builtin); ok && (b.Name() == "len" || b.Name() == "cap") {
 				continue
 			}
+			switch calleeName(y.Common()) {
+			case "(*bufio.Writer).Write", "(*bytes.Buffer).Write", "bytes.Equal", "bytes.HasPrefix", "bytes.HasSuffix", "bytes.Index", "bytes.Contains":
+				continue // library functions that only read their argument
+			}
 			return "passed to " + calleeName(y.Common())
 		case *ssa.Phi:
 			if why := readOnlySliceUses(y); why != "" {
